@@ -114,6 +114,23 @@ def clause_wiring(prog, rep, syncs):
                 if "relays" in fl and og.has_call(is_from_group):
                     ok = True
         rep.check(ok, "sync-field-wiring", "relays", "relay set replaced with the extension's relays", "the sync does not replace the relay set from the data extension", f.loc())
+        # ... on every path that ends well; the only skip that leaves the stored set equal to the extension's is one taken on the
+        # equal side of a whole-set comparison of the two (BTreeSet == BTreeSet, stored vs extension)
+        if rr:
+            skip = set()
+            for c in f.live_calls():
+                if c.name in ("eq", "ne") and last_seg(c.trait) == "PartialEq" and len(c.args) == 2 and all("p" in a for a in c.args) \
+                        and all("BTreeSet" in f.locals[a["p"][0]] or "HashSet" in f.locals[a["p"][0]] for a in c.args):
+                    ogs = [A.origins(prog, f, a["p"][0], scope=None, max_frames=1) for a in c.args]
+                    if any(o.has_call(lambda x: K.is_storage_trait_call(x, "group_relays")) for o in ogs) and \
+                            any("relays" in o.fields and o.has_call(is_from_group) for o in ogs):
+                        te = A.bool_true_edges(f, c)
+                        skip |= te if c.name == "eq" else set((w, s2) for (w, sx) in te for s2 in f.succs()[w] if s2 != sx)
+            r = A.reach_without_edges(f, 0, skip, frozenset(c.bb for c in rr) | A.err_exit_blocks(f))
+            rep.check(not any(f.term(b)["k"] == "return" for b in r), "sync-field-wiring", "relays/every-ok-path",
+                      "every successful return of the sync has replaced the stored relay set (or found it equal to the extension's as a whole)",
+                      "the sync can return Ok without having replaced the stored relay set with the extension's: a relay change made by a commit "
+                      "reaches the MLS state but not the stored record", f.loc())
         # the extension is decoded from the *current* MLS group (loaded in this function)
         ok = False
         for c in fg:
